@@ -252,6 +252,36 @@ func chainMutants(r *rand.Rand, seed int64, base *wire.Token, others, strangers 
 		}
 	}
 
+	// M7b secrets of other shapes that END or START with the last announced key: the 64-byte
+	// "expanded private key" form (seed || public key) must not be accepted as a next secret
+	{
+		a := base.All()
+		lastKey := a[len(a)-1].Key
+		junk := make([]byte, 32)
+		r.Read(junk)
+		for i, p := range [][]byte{
+			append(append([]byte{}, junk...), lastKey...),
+			append(append([]byte{}, lastKey...), junk...),
+			append(append([]byte{}, lastKey...), lastKey...),
+			append([]byte{}, lastKey...),
+		} {
+			t := base.Clone()
+			t.ProofKind, t.Proof = wire.ProofSecret, p
+			m.add("M7-secret-built-from-announced-key", t)
+			if i == 0 && len(a) > 1 {
+				// the same on a truncated prefix: strip the last block, "prove" with junk || key
+				t2 := base.Clone()
+				t2.SetAll(a[:len(a)-1])
+				pk := a[len(a)-2].Key
+				t2.ProofKind, t2.Proof = wire.ProofSecret, append(append([]byte{}, junk...), pk...)
+				m.add("M7-secret-built-from-announced-key", t2)
+			}
+		}
+		t := base.Clone()
+		t.ProofKind, t.Proof = wire.ProofFinal, append(append([]byte{}, junk...), lastKey...)
+		m.add("M7-seal-built-from-announced-key", t)
+	}
+
 	// M8 authority re-signed by an attacker root (whole chain re-signed)
 	{
 		_, aroot := m.keys("m8root")
